@@ -11,14 +11,15 @@ import (
 	"math/big"
 	"os"
 	"sort"
+	"strings"
 	"time"
 
+	saodidkey "github.com/SaoNetwork/sao-did/key"
 	"github.com/SaoNetwork/sao/app"
 	modelmodule "github.com/SaoNetwork/sao/x/model"
 	nodemodule "github.com/SaoNetwork/sao/x/node"
 	nodetypes "github.com/SaoNetwork/sao/x/node/types"
 	saomodule "github.com/SaoNetwork/sao/x/sao"
-	saodidkey "github.com/SaoNetwork/sao-did/key"
 	codectypes "github.com/cosmos/cosmos-sdk/codec/types"
 	cryptocodec "github.com/cosmos/cosmos-sdk/crypto/codec"
 	"github.com/cosmos/cosmos-sdk/crypto/keys/ed25519"
@@ -45,25 +46,25 @@ const (
 // Config is the world a trace runs in. It is echoed into the genesis record of
 // every trace so the TLA+ side sees the same constants.
 type Config struct {
-	Accounts       int    `json:"accounts"`       // named accounts a01..aNN (address order)
-	Dids           int    `json:"dids"`           // key DIDs d1..dK
-	Validators     int    `json:"validators"`     // bonded validators v1..vM
-	Balance        int64  `json:"balance"`        // initial coins per account
-	ValTokens      int64  `json:"valTokens"`      // self-bonded tokens per validator
-	BlockReward    int64  `json:"blockReward"`    // node param
-	Baseline       int64  `json:"baseline"`       // node param
-	APY            string `json:"apy"`            // node param
-	HalvingPeriod  int64  `json:"halvingPeriod"`  // node param
-	AdjustPeriod   int64  `json:"adjustPeriod"`   // node param
-	VstorThreshold int64  `json:"vstorThreshold"` // node param (bytes)
-	ShareThreshold string `json:"shareThreshold"` // node param
-	OfflineTrigger int64  `json:"offlineTrigger"` // node param
-	MaxPenalty     uint64 `json:"maxPenalty"`
-	PenaltyBase    uint64 `json:"penaltyBase"`
-	Fishmen        []string `json:"fishmen"`      // account names
-	Salt           int64  `json:"salt"`           // block seed salt (see Seed)
-	SeedMode       string `json:"seedMode"`       // "hash" (default) | "zero" | "small"
-	WorldSeed      int64  `json:"worldSeed"`      // key derivation
+	Accounts       int      `json:"accounts"`       // named accounts a01..aNN (address order)
+	Dids           int      `json:"dids"`           // key DIDs d1..dK
+	Validators     int      `json:"validators"`     // bonded validators v1..vM
+	Balance        int64    `json:"balance"`        // initial coins per account
+	ValTokens      int64    `json:"valTokens"`      // self-bonded tokens per validator
+	BlockReward    int64    `json:"blockReward"`    // node param
+	Baseline       int64    `json:"baseline"`       // node param
+	APY            string   `json:"apy"`            // node param
+	HalvingPeriod  int64    `json:"halvingPeriod"`  // node param
+	AdjustPeriod   int64    `json:"adjustPeriod"`   // node param
+	VstorThreshold int64    `json:"vstorThreshold"` // node param (bytes)
+	ShareThreshold string   `json:"shareThreshold"` // node param
+	OfflineTrigger int64    `json:"offlineTrigger"` // node param
+	MaxPenalty     uint64   `json:"maxPenalty"`
+	PenaltyBase    uint64   `json:"penaltyBase"`
+	Fishmen        []string `json:"fishmen"`   // account names
+	Salt           int64    `json:"salt"`      // block seed salt (see Seed)
+	SeedMode       string   `json:"seedMode"`  // "hash" (default) | "zero" | "small"
+	WorldSeed      int64    `json:"worldSeed"` // key derivation
 }
 
 func DefaultConfig() Config {
@@ -94,19 +95,19 @@ type Validator struct {
 }
 
 type Chain struct {
-	Cfg   Config
-	App   *app.App
-	Ctx   sdk.Context
-	H     int64
-	Accs  []*Account
-	Dids  []*DidP
-	Vals  []*Validator
-	names map[string]string // concrete -> name (addresses, dids, validators, data ids, commits)
-	concr map[string]string // name -> concrete
-	Halted string           // non-empty once a blocker panicked/hung
+	Cfg     Config
+	App     *app.App
+	Ctx     sdk.Context
+	H       int64
+	Accs    []*Account
+	Dids    []*DidP
+	Vals    []*Validator
+	names   map[string]string // concrete -> name (addresses, dids, validators, data ids, commits)
+	concr   map[string]string // name -> concrete
+	Halted  string            // non-empty once a blocker panicked/hung
 	Timeout time.Duration
-	encCfg cosmoscmd.EncodingConfig
-	sids   map[string]*sidInfo
+	encCfg  cosmoscmd.EncodingConfig
+	sids    map[string]*sidInfo
 }
 
 func init() {
@@ -183,6 +184,13 @@ func newWorld(cfg Config) (*Chain, error) {
 		vv := &Validator{Name: fmt.Sprintf("v%d", i+1), ValAddr: valAddr, Owner: owner}
 		c.Vals = append(c.Vals, vv)
 		c.bind(vv.Name, valAddr.String())
+	}
+	// symbolic data / commit ids are bound up front so that every process names them alike
+	for i := 1; i <= 12; i++ {
+		c.dataConcrete(fmt.Sprintf("D%d", i))
+	}
+	for i := 1; i <= 60; i++ {
+		c.dataConcrete(fmt.Sprintf("c%d", i))
 	}
 	c.encCfg = cosmoscmd.MakeEncodingConfig(app.ModuleBasics)
 	return c, nil
@@ -309,6 +317,26 @@ func (c *Chain) Name(concrete string) string {
 	if n, ok := c.names[concrete]; ok {
 		return n
 	}
+	// sid documents and account dids created by the harness carry their symbolic name on chain, so a
+	// process that did not create them (a restarted or re-initialised replica) names them alike
+	if strings.HasPrefix(concrete, "did:key:acc-") {
+		parts := strings.Split(strings.TrimPrefix(concrete, "did:key:acc-"), "-")
+		if len(parts) == 2 {
+			return "ad_" + parts[0] + "_" + parts[1]
+		}
+	}
+	doc := strings.TrimPrefix(concrete, "did:sid:")
+	if len(doc) == 64 && c.App != nil {
+		if d, ok := c.App.DidKeeper.GetSidDocument(c.Ctx, doc); ok && len(d.Keys) > 0 && strings.HasPrefix(d.Keys[0].Value, "key-") {
+			parts := strings.Split(strings.TrimPrefix(d.Keys[0].Value, "key-"), "-")
+			if len(parts) == 1 {
+				return parts[0]
+			}
+			if len(parts) >= 2 {
+				return parts[0] + "_" + parts[1]
+			}
+		}
+	}
 	return concrete
 }
 
@@ -368,8 +396,8 @@ func (c *Chain) guarded(f func()) (res string, panicMsg string) {
 
 // TxResult is the outcome of one message.
 type TxResult struct {
-	Result string      // ok | err | HANG
-	Panic  bool        // err caused by a recovered panic (baseapp recovers these in DeliverTx)
+	Result string // ok | err | HANG
+	Panic  bool   // err caused by a recovered panic (baseapp recovers these in DeliverTx)
 	Err    string
 	Code   uint32
 	Space  string
